@@ -18,6 +18,8 @@ QNAMES = {P.Query: "Query", MySQLQuery: "MySQLQuery", PostgreSQLQuery: "PostgreS
 
 SPECIAL_STRINGS = ["", "x", "it's", 'say "hi"', "back\\slash", "tick`tock", "a--b", "/*c*/", "?", "%s", "$1", "semi;colon",
                    "new\nline", "nul\x00byte", "üñí", "trail\\", "''", "\\'", "%", "_", "a'b\\c\"d`e", "*"]
+# (a member added to the enum later is outside the model: nothing is claimed about it, the generator does not draw it)
+MODELLED_JOIN_TYPES = ("inner", "left", "right", "outer", "left_outer", "right_outer", "full_outer", "cross", "hash")
 NAMES = ["a", "b", "c", "id", "foo", "bar", "Mixed", "select", "sp ace", "d.ot"]
 WEIRD_NAMES = ['we"ird', "ti`ck", "qu'ote", "ünï"]
 ALIASES = ["x", "al", "y1", "Al As"]
@@ -325,7 +327,7 @@ class G:
                 else:
                     item = self.new_table()
                     self.tables.pop()
-                how = r.choice(list(JoinType.__members__.values()))
+                how = r.choice([m for n, m in JoinType.__members__.items() if n in MODELLED_JOIN_TYPES])
                 j = q.join(item, how)
                 k = r.random()
                 try:
